@@ -109,6 +109,10 @@ class C18(Harness):
                 if nk:
                     ops.append(['updatekw', nk[-1], enc(x)])
             if keys:
+                ops.append(['pop'])
+                ops.append(['pop', 0])
+                if len(keys) > 1:
+                    ops.append(['pop', -2])
                 ops.append(['popkey', keys[0]])
                 if len(keys) > 1:
                     ops.append(['popkey', keys[-1]])
@@ -158,6 +162,9 @@ class C18(Harness):
             m.update(**{op[1]: dec(op[2])})
         elif kind == 'popkey':
             ret = m.pop(op[1])
+        elif kind == 'pop':
+            k = list(m)[op[1] if len(op) > 1 else -1]
+            ret = m.pop(k)
         elif kind in ('remove', 'remove_same'):
             o = dec(op[1])
             for k in [k for k, v in m.items() if v == o]:
